@@ -25,6 +25,10 @@ func init() {
 				if vpB(cm, "customPrefix") {
 					cfg.ProxyPrefix = "/_gate"
 				}
+				if vpB(cm, "expire0") {
+					zero := 0
+					cfg.Expire = &zero
+				}
 				if vpB(cm, "rp") {
 					cfg.ReverseProxy, cfg.RealIPHeader = true, "X-Real-IP"
 				}
